@@ -9,6 +9,9 @@
   subject of the correspondence stream c08 (before/after `SELECT *` of every table around every injected failure).
 -/
 import Csvq.Lemmas.Dml
+import Csvq.Model.Skeleton
+import Csvq.Gen.DmlFacts
+import Csvq.Ref.DmlFacts
 namespace Csvq.C08
 open Csvq Csvq.Dml
 
@@ -327,6 +330,248 @@ theorem old_publication_loop_cancel_partial (s : State) (st : Stmt) (k : Nat) (e
   | dropCols _ _ => exact failed_stmt_id s _ e h
   | rename _ _ _ => exact failed_stmt_id s _ e h
   | create _ _ _ => exact failed_stmt_id s _ e h
+
+/-! ## the statement skeletons of lib/query/query.go and processor.go, REGENERATED on every run (extract/dmlfacts)
+
+  `stmtImpl` = body on copies → publish → mark is the shape the model ASSUMES of the Go functions.  The theorems below
+  are about `Csvq.Gen.fx…`, the effect lists translated from the current source, so an edit of Insert / Update / Delete /
+  Replace / CreateTable / AddColumns / DropColumns / RenameColumn / SetTableAttribute or of their cases in
+  Processor.ExecuteStatement changes the definitions these theorems are about. -/
+
+open Csvq.Skeleton in
+/-- the regenerated skeletons are the reviewed ones (Ref/DmlFacts.lean) -/
+theorem gen_skeletons_eq_ref :
+    Csvq.Gen.fxInsert = Csvq.Ref.fxInsert ∧ Csvq.Gen.fxUpdate = Csvq.Ref.fxUpdate ∧
+    Csvq.Gen.fxReplace = Csvq.Ref.fxReplace ∧ Csvq.Gen.fxDelete = Csvq.Ref.fxDelete ∧
+    Csvq.Gen.fxCreateTable = Csvq.Ref.fxCreateTable ∧ Csvq.Gen.fxAddColumns = Csvq.Ref.fxAddColumns ∧
+    Csvq.Gen.fxDropColumns = Csvq.Ref.fxDropColumns ∧ Csvq.Gen.fxRenameColumn = Csvq.Ref.fxRenameColumn ∧
+    Csvq.Gen.fxSetTableAttribute = Csvq.Ref.fxSetTableAttribute := by decide
+
+theorem gen_processor_cases_eq_ref :
+    Csvq.Gen.fxProcInsertQuery = Csvq.Ref.fxProcInsertQuery ∧ Csvq.Gen.fxProcUpdateQuery = Csvq.Ref.fxProcUpdateQuery ∧
+    Csvq.Gen.fxProcReplaceQuery = Csvq.Ref.fxProcReplaceQuery ∧ Csvq.Gen.fxProcDeleteQuery = Csvq.Ref.fxProcDeleteQuery ∧
+    Csvq.Gen.fxProcCreateTable = Csvq.Ref.fxProcCreateTable ∧ Csvq.Gen.fxProcAddColumns = Csvq.Ref.fxProcAddColumns ∧
+    Csvq.Gen.fxProcDropColumns = Csvq.Ref.fxProcDropColumns ∧ Csvq.Gen.fxProcRenameColumn = Csvq.Ref.fxProcRenameColumn ∧
+    Csvq.Gen.fxProcSetTableAttribute = Csvq.Ref.fxProcSetTableAttribute := by decide
+
+set_option maxRecDepth 200000 in
+/-- no translated function contains a call that was not reviewed -/
+theorem gen_no_unreviewed_call :
+    (Csvq.Gen.fxInsert ++ Csvq.Gen.fxUpdate ++ Csvq.Gen.fxReplace ++ Csvq.Gen.fxDelete ++ Csvq.Gen.fxCreateTable ++
+      Csvq.Gen.fxAddColumns ++ Csvq.Gen.fxDropColumns ++ Csvq.Gen.fxRenameColumn ++ Csvq.Gen.fxSetTableAttribute ++
+      Csvq.Gen.fxProcInsertQuery ++ Csvq.Gen.fxProcUpdateQuery ++ Csvq.Gen.fxProcReplaceQuery ++ Csvq.Gen.fxProcDeleteQuery ++
+      Csvq.Gen.fxProcCreateTable ++ Csvq.Gen.fxProcAddColumns ++ Csvq.Gen.fxProcDropColumns ++ Csvq.Gen.fxProcRenameColumn ++
+      Csvq.Gen.fxProcSetTableAttribute ++ Csvq.Gen.fxHeaderUpdate).all (fun t => !Csvq.Skeleton.hasPrefix "call(" t) = true := by decide
+
+/-- RestoreHeaderReferences cannot fail: it is Header.Update(name, nil), and every early return of Header.Update sits
+    inside the branch guarded by `fields != nil && 0 < len(fields)` -/
+theorem gen_restore_header_infallible :
+    Csvq.Gen.restoreHeaderBody = "{ return view.Header.Update(FormatTableName(view.FileInfo.Path), nil) }" ∧
+    Csvq.Gen.headerUpdateGuard = "fields!=nil&&0<len(fields)" ∧
+    Csvq.Gen.fxHeaderUpdate = ["if{", "if{", "return", "}", "loop(fields){", "if{", "return", "}", "}", "}", "loop(h){", "if{", "}", "}", "return"] := by decide
+
+/-- PUBLISH AFTER SUCCESS, for all nine functions: from the first replacement of a cached / temporary table on (and from
+    the start of the loop that contains it) nothing can return but the final `return` — no fallible step, no look at the
+    context, not even in a later iteration of a publication loop (the defects F42 and C08-m2 were exactly that) -/
+theorem gen_publish_after_success :
+    Csvq.Skeleton.publishAfterSuccess Csvq.Gen.fxInsert = true ∧ Csvq.Skeleton.publishAfterSuccess Csvq.Gen.fxUpdate = true ∧
+    Csvq.Skeleton.publishAfterSuccess Csvq.Gen.fxReplace = true ∧ Csvq.Skeleton.publishAfterSuccess Csvq.Gen.fxDelete = true ∧
+    Csvq.Skeleton.publishAfterSuccess Csvq.Gen.fxCreateTable = true ∧ Csvq.Skeleton.publishAfterSuccess Csvq.Gen.fxAddColumns = true ∧
+    Csvq.Skeleton.publishAfterSuccess Csvq.Gen.fxDropColumns = true ∧ Csvq.Skeleton.publishAfterSuccess Csvq.Gen.fxRenameColumn = true ∧
+    Csvq.Skeleton.publishAfterSuccess Csvq.Gen.fxSetTableAttribute = true := by decide
+
+/-- the check is not vacuous: the publication loop of Delete before 2dda37b (context looked at inside the loop) fails it -/
+theorem publish_after_success_rejects_old_delete_loop :
+    Csvq.Skeleton.publishAfterSuccess
+      ["load(forUpdate=true,ids=true)", "if(err){", "return", "}", "loop(viewsToDelete){", "if(ctx){", "return", "}",
+       "set_records(v)", "if(inMemory){", "publish_temp(v)", "}", "else{", "if(isFile){", "publish_file(v)", "}", "}", "}", "return"] = false := by decide
+
+set_option maxRecDepth 200000 in
+/-- nothing is marked inside the query.go functions, and in processor.go every mark sits in the branch taken when the
+    function returned no error, after the call -/
+theorem gen_mark_only_after_success :
+    (Csvq.Gen.fxInsert ++ Csvq.Gen.fxUpdate ++ Csvq.Gen.fxReplace ++ Csvq.Gen.fxDelete ++ Csvq.Gen.fxCreateTable ++
+      Csvq.Gen.fxAddColumns ++ Csvq.Gen.fxDropColumns ++ Csvq.Gen.fxRenameColumn ++ Csvq.Gen.fxSetTableAttribute).all
+        (fun t => !Csvq.Skeleton.isMark t) = true ∧
+    ["run(Insert)", "if(ok){", "if(count>0){", "mark_updated(fileInfo)", "}"] <:+: Csvq.Gen.fxProcInsertQuery ∧
+    ["run(Replace)", "if(ok){", "if(count>0){", "mark_updated(fileInfo)", "}"] <:+: Csvq.Gen.fxProcReplaceQuery ∧
+    ["run(Update)", "if(ok){", "loop(infos){", "if(count>0){", "mark_updated(info)", "}"] <:+: Csvq.Gen.fxProcUpdateQuery ∧
+    ["run(Delete)", "if(ok){", "loop(infos){", "if(count>0){", "mark_updated(info)", "}"] <:+: Csvq.Gen.fxProcDeleteQuery ∧
+    ["run(CreateTable)", "if(ok){", "mark_created(info)"] <:+: Csvq.Gen.fxProcCreateTable ∧
+    ["run(AddColumns)", "if(ok){", "mark_updated(info)"] <:+: Csvq.Gen.fxProcAddColumns ∧
+    ["run(DropColumns)", "if(ok){", "mark_updated(info)"] <:+: Csvq.Gen.fxProcDropColumns ∧
+    ["run(RenameColumn)", "if(ok){", "mark_updated(info)"] <:+: Csvq.Gen.fxProcRenameColumn ∧
+    ["run(SetTableAttribute)", "if(ok){", "mark_updated(info)"] <:+: Csvq.Gen.fxProcSetTableAttribute := by decide
+
+/-- the mark happens iff the table's count is positive — once per statement for INSERT / REPLACE, for EACH table inside the
+    loop of the multi-table UPDATE / DELETE; exactly one mark token per case -/
+theorem gen_mark_iff_count_positive :
+    Csvq.Skeleton.marksGuardedBy "if(count>0){" Csvq.Gen.fxProcInsertQuery = true ∧
+    Csvq.Skeleton.marksGuardedBy "if(count>0){" Csvq.Gen.fxProcReplaceQuery = true ∧
+    Csvq.Skeleton.marksGuardedBy "if(count>0){" Csvq.Gen.fxProcUpdateQuery = true ∧
+    Csvq.Skeleton.marksGuardedBy "if(count>0){" Csvq.Gen.fxProcDeleteQuery = true ∧
+    Csvq.Skeleton.marksGuardedBy "if(ok){" Csvq.Gen.fxProcAddColumns = true ∧
+    Csvq.Skeleton.marksGuardedBy "if(ok){" Csvq.Gen.fxProcDropColumns = true ∧
+    Csvq.Skeleton.marksGuardedBy "if(ok){" Csvq.Gen.fxProcRenameColumn = true ∧
+    Csvq.Skeleton.marksGuardedBy "if(ok){" Csvq.Gen.fxProcSetTableAttribute = true ∧
+    Csvq.Skeleton.marksGuardedBy "if(ok){" Csvq.Gen.fxProcCreateTable = true ∧
+    ((Csvq.Gen.fxProcUpdateQuery.filter Csvq.Skeleton.isMark).length = 1 ∧ (Csvq.Gen.fxProcDeleteQuery.filter Csvq.Skeleton.isMark).length = 1) := by decide
+
+/-- the model marks by the same rule: `body` hands over `mark = (0 < count)` for INSERT / REPLACE / UPDATE / DELETE, per
+    target table in the multi-table forms, and `mark = true` for the ALTER statements and CREATE -/
+theorem model_single_table_mark_rule (ts : Tables) (outs : List Out) :
+    (∀ tbl fields src, body ts (.insert tbl fields src) = .ok outs → ∀ o ∈ outs, o.mark = decide (0 < o.count)) ∧
+    (∀ tbl cond sets, body ts (.update tbl cond sets) = .ok outs → ∀ o ∈ outs, o.mark = decide (0 < o.count)) ∧
+    (∀ tbl cond, body ts (.delete tbl cond) = .ok outs → ∀ o ∈ outs, o.mark = decide (0 < o.count)) ∧
+    (∀ tbl pos cols, body ts (.addCols tbl pos cols) = .ok outs → ∀ o ∈ outs, o.mark = true) ∧
+    (∀ tbl cols, body ts (.dropCols tbl cols) = .ok outs → ∀ o ∈ outs, o.mark = true) ∧
+    (∀ tbl old new, body ts (.rename tbl old new) = .ok outs → ∀ o ∈ outs, o.mark = true) := by
+  refine ⟨?_, ?_, ?_, ?_, ?_, ?_⟩
+  · intro tbl fields src hk o ho
+    simp only [body] at hk
+    cases hg : getCopy ts tbl with
+    | error e => simp [hg] at hk
+    | ok t =>
+      simp only [hg] at hk
+      split at hk
+      · cases hk
+      · cases hk; simp at ho; subst ho; rfl
+  · intro tbl cond sets hk o ho
+    simp only [body] at hk
+    cases hg : getCopy ts tbl with
+    | error e => simp [hg] at hk
+    | ok t =>
+      simp only [hg] at hk
+      split at hk
+      · cases hk
+      · cases hk; simp at ho; subst ho; rfl
+  · intro tbl cond hk o ho
+    simp only [body] at hk
+    cases hg : getCopy ts tbl with
+    | error e => simp [hg] at hk
+    | ok t =>
+      simp only [hg] at hk
+      split at hk
+      · cases hk
+      · cases hk; simp at ho; subst ho; rfl
+  · intro tbl pos cols hk o ho
+    simp only [body] at hk
+    cases hg : getCopy ts tbl with
+    | error e => simp [hg] at hk
+    | ok t =>
+      simp only [hg] at hk
+      split at hk
+      · cases hk
+      · cases hk; simp at ho; subst ho; rfl
+  · intro tbl cols hk o ho
+    simp only [body] at hk
+    cases hg : getCopy ts tbl with
+    | error e => simp [hg] at hk
+    | ok t =>
+      simp only [hg] at hk
+      split at hk
+      · cases hk
+      · cases hk; simp at ho; subst ho; rfl
+  · intro tbl old new hk o ho
+    simp only [body] at hk
+    cases hg : getCopy ts tbl with
+    | error e => simp [hg] at hk
+    | ok t =>
+      simp only [hg] at hk
+      split at hk
+      · cases hk
+      · cases hk; simp at ho; subst ho; rfl
+
+theorem model_multi_table_mark_rule (ts : Tables) (froms : List String) (view : List JRow) :
+    (∀ (targets : List String) (outs : List Out), deleteTargets ts froms view targets = .ok outs →
+      ∀ o ∈ outs, o.mark = decide (0 < o.count)) ∧
+    (∀ (sets : List (String × SetItem (List Row))) (targets : List String) (outs : List Out),
+      updateTargets ts froms view sets targets = .ok outs → ∀ o ∈ outs, o.mark = decide (0 < o.count)) := by
+  constructor
+  · intro targets
+    induction targets with
+    | nil => intro outs h o ho; simp [deleteTargets] at h; subst h; cases ho
+    | cons tn rest ih =>
+      intro outs h o ho
+      unfold deleteTargets at h
+      cases hg : getCopy ts tn with
+      | error e => simp [hg] at h
+      | ok t =>
+        simp only [hg] at h
+        cases hp : firstIdx tn froms with
+        | none => simp [hp] at h
+        | some p =>
+          simp only [hp] at h
+          cases hrest : deleteTargets ts froms view rest with
+          | error e => simp [hrest] at h
+          | ok outs' =>
+            simp only [hrest] at h
+            cases h
+            cases ho with
+            | head => rfl
+            | tail _ hm => exact ih outs' hrest o hm
+  · intro sets targets
+    induction targets with
+    | nil => intro outs h o ho; simp [updateTargets] at h; subst h; cases ho
+    | cons tn rest ih =>
+      intro outs h o ho
+      unfold updateTargets at h
+      cases hg : getCopy ts tn with
+      | error e => simp [hg] at h
+      | ok t =>
+        simp only [hg] at h
+        cases hp : firstIdx tn froms with
+        | none => simp [hp] at h
+        | some p =>
+          simp only [hp] at h
+          split at h
+          · cases h
+          · cases hrest : updateTargets ts froms view sets rest with
+            | error e => simp [hrest] at h
+            | ok outs' =>
+              simp only [hrest] at h
+              cases h
+              cases ho with
+              | head => rfl
+              | tail _ hm => exact ih outs' hrest o hm
+
+/-- the operation lock is taken before the load and given back by `defer` in all eight locking functions -/
+theorem gen_lock_released :
+    (["lock", "if(err){", "return", "}", "defer:unlock", "load(forUpdate=true,ids=false)"] <:+: Csvq.Gen.fxInsert) ∧
+    (["lock", "if(err){", "return", "}", "defer:unlock", "load(forUpdate=true,ids=true)"] <:+: Csvq.Gen.fxUpdate) ∧
+    (["lock", "if(err){", "return", "}", "defer:unlock", "load(forUpdate=true,ids=false)"] <:+: Csvq.Gen.fxReplace) ∧
+    (["lock", "if(err){", "return", "}", "defer:unlock", "load(forUpdate=true,ids=true)"] <:+: Csvq.Gen.fxDelete) ∧
+    (["lock", "if(err){", "return", "}", "defer:unlock", "load(forUpdate=true,ids=false)"] <:+: Csvq.Gen.fxAddColumns) ∧
+    (["lock", "if(err){", "return", "}", "defer:unlock", "load(forUpdate=true,ids=false)"] <:+: Csvq.Gen.fxDropColumns) ∧
+    (["lock", "if(err){", "return", "}", "defer:unlock", "load(forUpdate=true,ids=false)"] <:+: Csvq.Gen.fxRenameColumn) ∧
+    (["lock", "if(err){", "return", "}", "defer:unlock", "load(forUpdate=true,ids=false)"] <:+: Csvq.Gen.fxSetTableAttribute) := by decide
+
+/-- CREATE TABLE: once the handler of the new file exists, every error return is directly preceded by closing
+    (= removing) it; the handler is acquired once, and nothing acquires anything between it and the publication except
+    through those guarded returns (a new early return without the release — seed C08-m9 — breaks this) -/
+theorem gen_create_releases_handler :
+    Csvq.Skeleton.releasedOnEveryError "create_handler" "close_handler" Csvq.Gen.fxCreateTable = true ∧
+    (Csvq.Gen.fxCreateTable.filter (· == "create_handler")).length = 1 ∧
+    (Csvq.Gen.fxCreateTable.filter (· == "lock")).length = 0 := by decide
+
+/-- not vacuous: a return after the handler was created that does not close it is rejected -/
+theorem release_check_rejects_missing_close :
+    Csvq.Skeleton.releasedOnEveryError "create_handler" "close_handler"
+      ["new_fileinfo", "if(err){", "return", "}", "create_handler", "if(err){", "return", "}", "lock", "if(err){", "return", "}",
+       "set_fileinfo(view)", "publish_file(view)", "return"] = false := by decide
+
+/-- the functions evaluate on what the load returned or on further copies, never on the cached view itself: the only
+    writes are cell / record-set / header replacements of `view` (the load's copy) or of the `get_copy` views, and no
+    write goes INTO a cell (cells are shared between a copy and the cached table) -/
+theorem gen_writes_go_to_copies :
+    Csvq.Skeleton.writes Csvq.Gen.fxUpdate = ["write_cell(viewsToUpdate[viewref])"] ∧
+    Csvq.Skeleton.writes Csvq.Gen.fxDelete = ["set_records(v)"] ∧
+    Csvq.Skeleton.writes Csvq.Gen.fxAddColumns = ["set_header(view)", "set_records(view)"] ∧
+    Csvq.Skeleton.writes Csvq.Gen.fxRenameColumn = ["write_header(view)"] ∧
+    Csvq.Skeleton.writes Csvq.Gen.fxInsert = [] ∧ Csvq.Skeleton.writes Csvq.Gen.fxReplace = [] ∧
+    Csvq.Skeleton.writes Csvq.Gen.fxDropColumns = [] ∧ Csvq.Skeleton.writes Csvq.Gen.fxSetTableAttribute = [] ∧
+    (["get_copy", "}", "else{", "get_copy", "if(err){", "return", "}", "}", "header_update(viewsToUpdate[viewKey])"] <:+: Csvq.Gen.fxUpdate) ∧
+    (["get_copy", "}", "else{", "get_copy", "if(err){", "return", "}", "}", "header_update(viewsToDelete[viewKey])"] <:+: Csvq.Gen.fxDelete) := by decide
 
 /-! ## non-vacuity -/
 
